@@ -29,6 +29,9 @@ pub struct Sc {
     /// whose arguments are the templates with {} replaced by the line
     #[serde(default)]
     pub replace: bool,
+    /// arguments per input line (blank separated); 0 or 1 = one argument per line
+    #[serde(default)]
+    pub words_per_line: usize,
 }
 
 pub struct C06;
@@ -66,13 +69,17 @@ impl Sc {
     pub fn to_xargs(&self) -> XargsScenario {
         let mut input = Vec::new();
         let sep = if self.nul { 0u8 } else { b'\n' };
+        let w = self.words_per_line.max(1);
         let mut i = 0usize;
         for (c, l) in &self.groups {
             for _ in 0..*c {
                 input.extend_from_slice(&arg_bytes(i, *l));
-                input.push(sep);
                 i += 1;
+                input.push(if !self.nul && i % w != 0 { b' ' } else { sep });
             }
+        }
+        if input.last() == Some(&b' ') {
+            *input.last_mut().unwrap() = b'\n';
         }
         let mut opts = self.opts.clone();
         if self.nul {
@@ -236,6 +243,7 @@ impl Property for C06 {
                 env_val_len: rng.urange(0, 50),
                 initial: vec![],
                 replace: false,
+                words_per_line: 1,
             };
         }
         if rng.chance(1, 6) {
@@ -279,10 +287,19 @@ impl Property for C06 {
                 env_val_len,
                 initial,
                 replace: true,
+                words_per_line: 1,
             };
         }
         let mut opts = vec![];
-        if rng.chance(1, 5) {
+        // -L with many words per line: every word, not only the one that ends a line, must be
+        // charged to the system limit
+        let words_per_line = if rng.chance(1, 10) {
+            opts.push(Opt::L(*rng.pick(&[1usize, 1, 2, 5, 1000])));
+            *rng.pick(&[2usize, 7, 50, 1000, 100_000])
+        } else {
+            1
+        };
+        if words_per_line == 1 && rng.chance(1, 5) {
             opts.push(Opt::N(*rng.pick(&[1000, 5000, 100_000, 1_000_000])));
         }
         if rng.chance(1, 5) {
@@ -292,15 +309,25 @@ impl Property for C06 {
         for _ in 0..rng.small(0, 3) {
             initial.push("i".repeat(rng.urange(1, 30)));
         }
+        if words_per_line > 1 {
+            // every -L group is a real fork+exec: keep their number in the low thousands
+            let k = opts.iter().find_map(|o| if let Opt::L(k) = o { Some(*k) } else { None }).unwrap_or(1);
+            let mut room = 2000usize.saturating_mul(words_per_line).saturating_mul(k);
+            for g in groups.iter_mut() {
+                g.0 = g.0.min(room.max(1));
+                room = room.saturating_sub(g.0);
+            }
+        }
         Sc {
             opts,
             groups,
-            nul: rng.chance(1, 3),
+            nul: words_per_line == 1 && rng.chance(1, 3),
             rlimit_stack,
             env_vars,
             env_val_len,
             initial,
             replace: false,
+            words_per_line,
         }
     }
 
@@ -332,6 +359,9 @@ impl Property for C06 {
         });
         if sc.env_vars >= 100 {
             rep.probe("many_tiny_environment_variables");
+        }
+        if sc.words_per_line > 1 {
+            rep.probe("max_lines_with_several_words_per_line");
         }
         if sc.env_vars > 0 && sc.env_val_len >= 10_000 {
             rep.probe("few_large_environment_variables");
